@@ -71,7 +71,7 @@ func (r *Recorder) Put(ctx context.Context, k string, rd io.Reader, noOverwrite 
 	if r.Delay != nil && atomic.AddInt32(r.Delay, -1) >= 0 {
 		time.Sleep(1200 * time.Millisecond)
 	}
-	if r.SlowSubstr != "" && strings.Contains(k, r.SlowSubstr) {
+	if r.SlowFor > 0 && strings.Contains(k, r.SlowSubstr) {
 		time.Sleep(r.SlowFor)
 	}
 	r.Log.mu.Lock()
